@@ -12,11 +12,12 @@ import QuillModel.Backend.OrdBack3
 namespace Backend.PB
 open Backend
 
-def flagOf (st : Stmt) : Option Nat :=
-  match st.kind with
+def flagOfK : Kind → Option Nat
   | .flush f => some f
   | .removal f => some f
   | _ => none
+
+def flagOf (st : Stmt) : Option Nat := flagOfK st.kind
 
 def flagsIn (l : List Stmt) : List Nat := l.filterMap flagOf
 
